@@ -20,6 +20,40 @@ def work(line):
     return [json.dumps(case, separators=(',', ':'))]
 
 
+def hash_after_failure():
+    """the hash contract along a history: hash(a) raises once (a key's __hash__ fails transiently), later a == b must still imply
+    hash(a) == hash(b), and a must still work as a set member / dict key"""
+    out = []
+    for kind in ('dict', 'defaultdict', 'OrderedDict'):     # (custom metadata is not hashed: only the node type is)
+        if kind == 'custom-meta':
+            mk = lambda: [U.CM([U.Leaf(1)], 3)]     # noqa: E731
+            ns = 'm'
+        else:
+            cls = {'dict': dict, 'defaultdict': lambda d: U.defaultdict(int, d), 'OrderedDict': U.OrderedDict}[kind]
+            mk = lambda cls=cls: cls({U.KHook(1): U.Leaf(1), U.KHook(2): (U.Leaf(2),)})     # noqa: E731
+            ns = ''
+        a = optree.tree_structure(mk(), namespace=ns)
+        b = optree.tree_structure(mk(), namespace=ns)
+        h_before = hash(a)
+        fired = []
+
+        def hook(k, arg):
+            if k in ('key_hash', 'meta_hash') and not fired:
+                fired.append(1)
+                raise RuntimeError('transient')
+        U.HOOK = hook
+        try:
+            hash(a)
+            raised = False
+        except RuntimeError:
+            raised = True
+        finally:
+            U.HOOK = None
+        out.append({'op': 'hash-history', 'kind': kind, 'raised': raised, 'eq': a == b, 'hash_eq': hash(a) == hash(b), 'stable': hash(a) == h_before,
+                    'in_set': b in {a}, 'repr_ok': repr(a) == repr(b)})
+    return out
+
+
 def main():
     inp, outp = sys.argv[1], sys.argv[2]
     lines = list(open(inp))
@@ -27,6 +61,9 @@ def main():
         for res in pool.imap(work, lines, chunksize=16):
             for c in res:
                 fh.write(c + '\n')
+        U.setup_world()
+        for c in hash_after_failure():
+            fh.write(json.dumps(c) + '\n')
 
 
 if __name__ == '__main__':
